@@ -37,8 +37,7 @@ RULE = (
     "to the depth bound incl. chain and join nodes with raw operands: conform(raw) evaluates to the reference rows of "
     "the raw sequence on SQLite, conform(conform(raw)) is conform(raw), markers coherent; (b2) raw chain / join nodes "
     "over every ordered pair of 13 API-built (already conformed) operands incl. sorted, sliced, deduplicated and compound "
-    "ones: same oracle, plus refusal where an operand carries a sort without a slice and agreement with the tree the "
-    "factory would build; non-trivial = tree has >= 2 "
+    "ones: same oracle, plus refusal where an operand carries a sort without a slice; non-trivial = tree has >= 2 "
     "operations; distinct = distinct tree digests"
 )
 
@@ -336,13 +335,6 @@ def _api_pairs_work(pairs):
         for node, why in tree_incoherences(c):
             bad("select-incoherent", why, c)
             break
-        # the API would have built the same thing
-        try:
-            api = ctx.apply(a, (kind, pb) if kind == "chain" else ("join", pb, None, False))
-            if kind == "chain" and walk.key(api) != walk.key(c):
-                bad("conform-differs-from-api", f"conform(raw) = {c} but the factory builds {api}", c)
-        except Exception:  # noqa: BLE001
-            pass
         obs = SqlObs(c)
         if obs.failed:
             phase, e = obs.failure()
